@@ -79,4 +79,20 @@ def vmin (a b : Val) : Val := if vlt b a then b else a
 /-- the divisor test of a float division: `b == 0.0` (NaN is not zero) -/
 def visZero (b : Val) : Bool := veq b (.num 0)
 
+/-! ### glue extension (scalar index arithmetic: `get_window`, `point_interval`, …) -/
+
+/-- what a translated function with a `raise` statement returns: its value, or the name of the exception it
+    raises (`"ValueError"`; a tested zero divisor is `"ZeroDivisionError"`) -/
+inductive PyOut (α : Type) where
+  | ok : α → PyOut α
+  | raised : String → PyOut α
+  deriving DecidableEq, Repr
+
+/-- `math.ceil(x)` of a float that is not NaN (an `int` in Python 3) -/
+def rceil (x : Rat) : Int := x.ceil
+/-- `math.floor(x)` -/
+def rfloor (x : Rat) : Int := x.floor
+/-- `int(x)`: truncation towards zero -/
+def rtrunc (x : Rat) : Int := if x < 0 then x.ceil else x.floor
+
 end Pandora.PyExpr
